@@ -195,14 +195,14 @@ PROPS = {
         exhaustive_thorough=True,
         trusted=COMMON_TRUST + ["templateOk / scanOk: evaluated by native_decide (Lean compiler trusted for these closed terms)"]),
     "C16": dict(
-        module="FastQr.Props.C16", level="proof", key=lambda t: ("term", t[3], t[4], len(t[1]) % 7) if len(t) > 5 else None,
+        module="FastQr.Props.C16", more_modules=["FastQr.Props.C16Values"], level="proof", key=lambda t: ("term", t[3], t[4], len(t[1]) % 7) if len(t) > 5 else None,
         rule="cases: real QRCode::to_str() on real symbols of all 40 sizes (3 payloads each, thorough 50: random level/mode/mask, "
              "one at capacity); spec verdict = line count, line lengths, four-glyph alphabet and the grid decoded by "
              "Spec.TermDecode = matrix inside a one-module light border. distinct = (mode, version, payload length class).",
         exhaustive_quick=True, exhaustive_thorough=True,
         trusted=["hand model of helpers.rs tied by exact-string correspondence on all 40 sizes"]),
     "C12": dict(
-        module="FastQr.Props.C12", more_modules=["FastQr.Props.C12Doc"], level="proof",
+        module="FastQr.Props.C12", more_modules=["FastQr.Props.C12Doc", "FastQr.Props.C12Values"], level="proof",
         key=lambda t: ("svg", t[4], tuple(sorted(set(x.split(":")[0] + (":" + x.split(":")[1] if x.startswith(("s:", "sc:", "is:")) else "") for x in t[6].split(";")))), hash(t[6]) % 7) if len(t) > 7 else None,
         rule="cases: (image references: a fixed list and random compositions of ASCII, each XML-special character, entity look-alikes and 2/3/4-byte UTF-8 characters) real SvgBuilder::to_str on real symbols (versions 1..8 mostly, every 10th any version) under generated setter "
              "histories: margin 0..n, 0..3 shape()/shape_color() calls over the 6 shapes, colours as 3/4-byte arrays (alpha "
@@ -223,7 +223,7 @@ PROPS = {
         trusted=["hand model of wasm.rs tied by exact-string correspondence", "harness mapping of wasm options to native builder calls (the oracle)"],
         assumptions=["wasm-bindgen glue, JS<->Rust conversions and 32-bit usize are not covered"]),
     "C18": dict(
-        module="FastQr.Props.C18", level="proof",
+        module="FastQr.Props.C18", more_modules=["FastQr.Props.C18Values"], level="proof",
         key=lambda t: ("svg", t[4], tuple(x for x in t[6].split(";") if x.startswith(("m:", "is:"))), tuple(sorted(x.split(":")[0] for x in t[6].split(";") if x.startswith(("iz", "ig", "ip"))))) if len(t) > 7 else None,
         rule="cases: (override setters in ANY order, sometimes with an earlier value that a later call overrides) real SvgBuilder with an image: defaults exhaustive 40 versions x 3 frame shapes x margins 0..16; overrides: "
              "dyadic size / gap / position in every combination (quick 500, thorough 20000). spec verdict = frame and image "
